@@ -1,5 +1,146 @@
 /-
-C07 — property theorems (stub: not built yet).
+C07 — Successive matches are ordered, disjoint and terminate.
+
+Property theorems about the model `RegexVerif.Model.Scan` of `Runner.scan`, `FindNextMatch`,
+`findAllRunesIndex` and the adapter's `forEachStringMatch`, over an abstract matcher (`Engine`: for
+every `\G` origin a single-position `attempt`, a candidate `finder`, the bump-along `after`, and
+`MinRequiredLength`). `E.Sound rtl n` says the attempts are well-shaped (left-to-right a match
+begins at the attempt position, right-to-left it ends there) and the accelerators are sound; it is
+what C03/C04 establish for the real program, and what leg A checks on every table it feeds the model.
+The model is tied to the Go code by correspondence leg A.
 -/
+import RegexVerif.Lemmas.Scan
+
 namespace RegexVerif.Props.C07
+open RegexVerif RegexVerif.Scan RegexVerif.Lemmas.Scan
+
+/-! ### one step: FindNextMatch -/
+
+/-- **Strict order.** If `m` is a match returned on an input of `n` runes and `FindNextMatch(m)`
+    returns `m'`, then `m'` starts strictly later in scan order: at a larger index left-to-right, with
+    a smaller end (the position its attempt started at) right-to-left. -/
+theorem next_strict (E : Engine) (rtl : Bool) (n : Nat) (hE : E.Sound rtl n) (m m' : Hit)
+    (hv : m.Valid rtl n) (h : nextMatch E rtl n m = some m') :
+    if rtl then scanStart rtl m'.span < scanStart rtl m.span else scanStart rtl m.span < scanStart rtl m'.span := by
+  have hb := (nextMatch_spec E rtl n hE m m' hv h).2
+  cases rtl <;> simp [Hit.Before, scanStart, Hit.span] at hb ⊢ <;> omega
+
+/-- **Disjoint spans.** The next match does not overlap the previous one: it begins at or after its
+    end left-to-right, it ends at or before its beginning right-to-left. -/
+theorem next_disjoint (E : Engine) (rtl : Bool) (n : Nat) (hE : E.Sound rtl n) (m m' : Hit)
+    (hv : m.Valid rtl n) (h : nextMatch E rtl n m = some m') :
+    if rtl then m'.index + m'.len ≤ m.index else m.index + m.len ≤ m'.index := by
+  have hb := (nextMatch_spec E rtl n hE m m' hv h).2
+  cases rtl <;> simp [Hit.Before] at hb ⊢ <;> omega
+
+/-- The next match is again a proper result (inside the input, resuming at its scan-direction end), so
+    the two theorems above apply along the whole iteration. -/
+theorem next_valid (E : Engine) (rtl : Bool) (n : Nat) (hE : E.Sound rtl n) (m m' : Hit)
+    (hv : m.Valid rtl n) (h : nextMatch E rtl n m = some m') : m'.Valid rtl n :=
+  (nextMatch_spec E rtl n hE m m' hv h).1
+
+/-- the first match is a proper result too -/
+theorem first_valid (E : Engine) (rtl : Bool) (n : Nat) (hE : E.Sound rtl n) (m : Hit)
+    (h : firstMatch E rtl n = some m) : m.Valid rtl n :=
+  firstMatch_valid E rtl n hE m h
+
+/-- **Each next match is an independent search from the previous end.** `FindNextMatch(m)` equals
+    the naive scan (an attempt at every position in scan order, no acceleration) that starts at `m`'s
+    end in scan direction — one position further when `m` is empty — with `\G` bound to that end. -/
+theorem next_eq_fresh_search (E : Engine) (rtl : Bool) (n : Nat) (hE : E.Sound rtl n) (m : Hit)
+    (hv : m.Valid rtl n) :
+    nextMatch E rtl n m =
+      (naive (E.attempt (scanEnd rtl m.span)) (scanEnd rtl m.span) (m.len : Int) rtl n).map (Hit.ofSpan rtl) := by
+  have htp : m.textpos = scanEnd rtl m.span := hv.2
+  unfold nextMatch
+  rw [htp]
+  exact scanAt_eq_naive E rtl n hE _ _ (by rw [← htp]; exact valid_textpos_le hv)
+
+/-- The first match is the naive scan from the beginning in scan direction, `\G` bound there. -/
+theorem first_eq_fresh_search (E : Engine) (rtl : Bool) (n : Nat) (hE : E.Sound rtl n) :
+    firstMatch E rtl n =
+      (naive (E.attempt (firstStart rtl n)) (firstStart rtl n) (-1) rtl n).map (Hit.ofSpan rtl) :=
+  scanAt_eq_naive E rtl n hE _ _ (firstStart_le rtl n)
+
+example : (exEngine exL).Sound false 3 := exEngine_sound false 3 exL exL_shape
+example : (exEngine exR).Sound true 3 := exEngine_sound true 3 exR exR_shape
+-- "baa", a*: after the empty match at 0 the next match is "aa" at 1; after it the empty match at 3
+example : nextMatch (exEngine exL) false 3 ⟨0, 0, 0⟩ = some ⟨1, 2, 3⟩ := by decide
+example : nextMatch (exEngine exL) false 3 ⟨1, 2, 3⟩ = some ⟨3, 0, 3⟩ := by decide
+example : nextMatch (exEngine exL) false 3 ⟨3, 0, 3⟩ = none := by decide
+example : nextMatch (exEngine exR) true 3 ⟨1, 2, 1⟩ = some ⟨1, 0, 1⟩ := by decide
+example : (⟨0, 0, 0⟩ : Hit).Valid false 3 := by simp [Hit.Valid, scanEnd]
+
+/-! ### the whole iteration -/
+
+/-- **Order along the whole iteration.** In the sequence produced by iterating `FindNextMatch` every
+    later match starts strictly after, and does not overlap, every earlier one. -/
+theorem iterate_ordered (E : Engine) (rtl : Bool) (n : Nat) (hE : E.Sound rtl n) :
+    (iterate E rtl n).Pairwise (Hit.Before rtl) := by
+  unfold iterate
+  cases hf : firstMatch E rtl n with
+  | none => rw [iterFrom_none]; exact List.Pairwise.nil
+  | some m => exact (iterFrom_spec E rtl n hE (n + 2) m (firstMatch_valid E rtl n hE m hf)).2.1
+
+/-- **No match is yielded twice** — in particular no empty match: the spans of the sequence are
+    pairwise different. -/
+theorem no_repeated_empty (E : Engine) (rtl : Bool) (n : Nat) (hE : E.Sound rtl n) :
+    ((iterate E rtl n).map Hit.span).Nodup := by
+  rw [List.Nodup, List.pairwise_map]
+  exact (iterate_ordered E rtl n hE).imp fun h => before_span_ne h
+
+/-- **At most length + 1 matches.** -/
+theorem iter_length_le (E : Engine) (rtl : Bool) (n : Nat) (hE : E.Sound rtl n) :
+    (iterate E rtl n).length ≤ n + 1 := by
+  unfold iterate
+  cases hf : firstMatch E rtl n with
+  | none => rw [iterFrom_none]; simp
+  | some m =>
+    have hv := firstMatch_valid E rtl n hE m hf
+    have := (iterFrom_spec E rtl n hE (n + 2) m hv).2.2
+    have := ahead_le rtl n m hv
+    omega
+
+/-- **Termination.** The iteration reaches `nil` within `n + 2` calls: allowing more steps yields no
+    further match, so `iterate` (which stops after `n + 2`) is the complete sequence. -/
+theorem iterate_fuel_irrelevant (E : Engine) (rtl : Bool) (n : Nat) (hE : E.Sound rtl n) (fuel : Nat)
+    (hfuel : n + 2 ≤ fuel) : iterFrom E rtl n fuel (firstMatch E rtl n) = iterate E rtl n := by
+  unfold iterate
+  cases hf : firstMatch E rtl n with
+  | none => rw [iterFrom_none, iterFrom_none]
+  | some m =>
+    have hv := firstMatch_valid E rtl n hE m hf
+    have := ahead_le rtl n m hv
+    exact iterFrom_fuel E rtl n hE fuel (n + 2) m hv (by omega) (by omega)
+
+example : iterate (exEngine exL) false 3 = [⟨0, 0, 0⟩, ⟨1, 2, 3⟩, ⟨3, 0, 3⟩] := by decide
+example : iterate (exEngine exR) true 3 = [⟨1, 2, 1⟩, ⟨1, 0, 1⟩, ⟨0, 0, 0⟩] := by decide
+
+/-! ### find-all -/
+
+/-- **Find-all = the iteration minus adjacent empty matches, truncated.** `FindAllRunesIndex(r, k)`
+    (and `FindAllStringIndex` up to the byte mapping) returns exactly the FindNextMatch sequence
+    without the empty matches that lie where the match before them ended in scan direction,
+    truncated to `k` results (`k < 0`: all), and `nil` when that is empty (in particular for
+    `k = 0`). Holds for any matcher: the loop re-runs the very same scans. -/
+theorem findAll_eq (E : Engine) (rtl : Bool) (n : Nat) (k : Int) :
+    findAll E rtl n k = findAllSpec rtl k (iterate E rtl n) :=
+  findAll_eq_spec E rtl n k
+
+/-- The adapter's `forEachStringMatch` (behind `FindAllString`, `FindAllStringSubmatch`,
+    `FindAllStringSubmatchIndex`) delivers the same sequence, with the same nil-ness. -/
+theorem compatAll_eq (E : Engine) (rtl : Bool) (n : Nat) (k : Int) :
+    compatAll E rtl n k = findAllSpec rtl k (iterate E rtl n) :=
+  compatAll_eq_spec E rtl n k
+
+-- "baa", a*: left-to-right the empty match at 3 follows "aa" directly and is dropped; right-to-left
+-- the empty match at 1 is (the case commit b1f352b repaired)
+example : findAll (exEngine exL) false 3 (-1) = some [(0, 0), (1, 3)] := by decide
+example : findAll (exEngine exR) true 3 (-1) = some [(1, 3), (0, 0)] := by decide
+example : findAll (exEngine exR) true 3 1 = some [(1, 3)] := by decide
+example : findAll (exEngine exR) true 3 0 = none := by decide
+example : findAll (exEngine (fun _ => none)) false 3 2 = none := by decide
+example : compatAll (exEngine exR) true 3 2 = some [(1, 3), (0, 0)] := by decide
+example : findAllSpec true (-1) [⟨1, 2, 1⟩, ⟨1, 0, 1⟩, ⟨0, 0, 0⟩] = some [(1, 3), (0, 0)] := by decide
+
 end RegexVerif.Props.C07
